@@ -85,7 +85,18 @@ pub fn write_dso_debug_stream(
         .get_program_header_address()
         .ok_or(SectionDsoDebugError::CouldNotFind("AT_PHDR in auxv"))? as usize;
 
-    let ph = PtraceDumper::copy_from_process(blamed_thread, phdr, SIZEOF_PHDR * phnum_max)?;
+    let phdrs_size =
+        SIZEOF_PHDR
+            .checked_mul(phnum_max)
+            .ok_or(SectionDsoDebugError::CouldNotFind(
+                "program headers (AT_PHNUM in auxv is too large)",
+            ))?;
+    let ph = PtraceDumper::copy_from_process(blamed_thread, phdr, phdrs_size)?;
+    if ph.len() < phdrs_size {
+        return Err(SectionDsoDebugError::CouldNotFind(
+            "program headers (could not be read completely)",
+        ));
+    }
     let program_headers;
     #[cfg(target_pointer_width = "64")]
     {
